@@ -306,6 +306,9 @@ func checkC15(c *Ctx) {
 	checkExecuteOrdering(c, cmds, pk)
 	checkEntriesVerbatim(c, "C15.R3.entries-verbatim", cmds, pk)
 	checkInputsBeforeOutput(c, "C15.R3.inputs-before-output", cmds)
+	checkIgnoresAlwaysRead(c, "C15.R3.ignores-always-read", cmds)
+	checkConstantFormats(c, "C15.R4.constant-formats", []*packages.Package{pk, cmds})
+	checkReportLinesKept(c, "C15.R4.lines-kept", pk)
 	// an entry copied from one run's report cancels the same difference of the next run only if
 	// the text of the difference is a function of the two specs: no map iteration order in it
 	c.Rule("C15.R3.stable-entries", "order taint over the diff package: the location and info of a difference never depend on map iteration order (ranges are order-insensitive, sorted before they escape, or reviewed)", 30)
@@ -1155,4 +1158,161 @@ func checkInputsBeforeOutput(c *Ctx, rule string, cmds *packages.Package) {
 	}
 	c.Check(open > diffs && open > ignores, rule, "commands.DiffCommand.Execute › destination opened after the inputs are read", c.posOf(cmds, open), "getDiffs, readIgnores, then the destination",
 		"the destination is created and truncated before the ignore file is read: with the report used as ignore file and written in place (-i X -d X) the entries are lost before they are read, and the run fails instead of giving an empty report")
+}
+
+// checkConstantFormats: whatever is printed through a Printf-family function with the data as the
+// format has its `%` read as verbs. Every format of the diff package and of the diff command is a
+// constant.
+func checkConstantFormats(c *Ctx, rule string, pkgs []*packages.Package) {
+	c.Rule(rule, "every Printf-family call of the diff package and command has a constant format string", 10)
+	formatArg := map[string]int{"fmt.Printf": 0, "fmt.Sprintf": 0, "fmt.Errorf": 0, "fmt.Fprintf": 1, "log.Printf": 0, "log.Fatalf": 0, "log.Panicf": 0, "fmt.Appendf": 1}
+	for _, pk := range pkgs {
+		info := pk.TypesInfo
+		for _, fd := range load.AllFuncs(pk) {
+			if fd.Body == nil {
+				continue
+			}
+			if pk.Name == "commands" && load.RecvName(fd) != "DiffCommand" {
+				continue
+			}
+			ord := 0
+			ast.Inspect(fd.Body, func(n ast.Node) bool {
+				call, ok := n.(*ast.CallExpr)
+				if !ok {
+					return true
+				}
+				fn := goan.Callee(info, call)
+				if fn == nil {
+					return true
+				}
+				ix, isPrintf := formatArg[goan.CalleeName(fn)]
+				if !isPrintf || ix >= len(call.Args) {
+					return true
+				}
+				ord++
+				_, isConst := goan.StringVal(info, call.Args[ix])
+				c.Check(isConst, rule, fmt.Sprintf("%s.%s › %s #%d has a constant format", pk.Name, load.FuncName(fd), goan.CalleeName(fn), ord), c.posOf(pk, call.Pos()), "constant format",
+					fmt.Sprintf("%s is called with the format %s, which is data: a `%%` in a difference (an enum value `25%%`, a pattern) is read as a verb, the line is garbled and the next one glued to it — the text report no longer says what the JSON report says", goan.CalleeName(fn), goan.ExprString(call.Args[ix])))
+				return true
+			})
+		}
+	}
+}
+
+// checkReportLinesKept: the text report lists one line per difference of the class. Between
+// collecting the lines and writing them the list is only sorted: nothing re-assigns it (a
+// de-duplication drops differences that render alike, a filter drops some).
+func checkReportLinesKept(c *Ctx, rule string, pk *packages.Package) {
+	c.Rule(rule, "in reportChanges the list of lines is only appended to and sorted: no other assignment to it", 1)
+	fd := load.FuncDecl(pk, "SpecDifferences.reportChanges")
+	if fd == nil {
+		c.Anchor(rule, "diff.SpecDifferences.reportChanges", "not found")
+		return
+	}
+	info := pk.TypesInfo
+	// the list: the []string local that is ranged when writing
+	var list types.Object
+	ast.Inspect(fd.Body, func(n ast.Node) bool {
+		if rs, ok := n.(*ast.RangeStmt); ok {
+			if id, ok := ast.Unparen(rs.X).(*ast.Ident); ok {
+				if v, ok := info.Uses[id].(*types.Var); ok {
+					if sl, ok := v.Type().Underlying().(*types.Slice); ok && types.Identical(sl.Elem(), types.Typ[types.String]) {
+						list = v
+					}
+				}
+			}
+		}
+		return true
+	})
+	if list == nil {
+		c.Anchor(rule, "diff.SpecDifferences.reportChanges › list of lines", "no ranged []string local found")
+		return
+	}
+	var bad []string
+	for _, a := range goan.AssignmentsTo(info, fd.Body, list) {
+		if a.Rhs == nil {
+			continue
+		}
+		switch x := ast.Unparen(a.Rhs).(type) {
+		case *ast.CallExpr:
+			if goan.IsBuiltinCall(info, x, "append") && len(x.Args) >= 1 && identIs(info, x.Args[0], list) {
+				continue
+			}
+			if goan.IsBuiltinCall(info, x, "make") {
+				continue
+			}
+			bad = append(bad, goan.ExprString(a.Rhs))
+		case *ast.CompositeLit:
+			continue
+		default:
+			bad = append(bad, goan.ExprString(a.Rhs))
+		}
+	}
+	c.Check(len(bad) == 0, rule, "diff.SpecDifferences.reportChanges › lines are only appended and sorted", c.posOf(pk, fd.Pos()), "append / make only",
+		fmt.Sprintf("the list of report lines is re-assigned from %v: differences that render as the same line (two headers changed alike, an array and its items) are listed once while the count and the JSON report keep them all", bad))
+}
+
+// checkIgnoresAlwaysRead: readIgnores answers without reading the file only when no file was named.
+func checkIgnoresAlwaysRead(c *Ctx, rule string, cmds *packages.Package) {
+	c.Rule(rule, "DiffCommand.readIgnores returns successfully before decoding the file only under a test of the option's value against constants (no file named)", 1)
+	fd := load.FuncDecl(cmds, "DiffCommand.readIgnores")
+	if fd == nil {
+		c.Anchor(rule, "commands.DiffCommand.readIgnores", "not found")
+		return
+	}
+	info := cmds.TypesInfo
+	var decodePos token.Pos
+	ast.Inspect(fd.Body, func(n ast.Node) bool {
+		if call, ok := n.(*ast.CallExpr); ok {
+			if fn := goan.Callee(info, call); fn != nil && (goan.CalleeName(fn) == "encoding/json.Unmarshal" || strings.HasSuffix(goan.CalleeName(fn), "Decoder.Decode")) {
+				decodePos = call.Pos()
+			}
+		}
+		return true
+	})
+	if !decodePos.IsValid() {
+		c.Anchor(rule, "commands.DiffCommand.readIgnores › decode", "no json.Unmarshal / Decode call")
+		return
+	}
+	n := 0
+	goan.WalkGuards(info, fd.Body, func(leaf ast.Node, guards []goan.Lit, _ []ast.Stmt) {
+		rs, ok := leaf.(*ast.ReturnStmt)
+		if !ok || len(rs.Results) != 2 || !goan.IsNil(info, rs.Results[1]) || rs.Pos() > decodePos {
+			return
+		}
+		n++
+		// every atom of the (non-early) guards compares a string with a constant
+		okGuard, seen := true, false
+		for _, g := range guards {
+			if g.Early {
+				continue
+			}
+			seen = true
+			ast.Inspect(g.E, func(m ast.Node) bool {
+				if m == nil {
+					return true
+				}
+				switch x := m.(type) {
+				case *ast.BinaryExpr:
+					if x.Op == token.LOR || x.Op == token.LAND {
+						return true
+					}
+					if x.Op == token.EQL {
+						if _, isConst := goan.StringVal(info, x.Y); isConst {
+							return false
+						}
+					}
+					okGuard = false
+					return false
+				case *ast.ParenExpr:
+					return true
+				default:
+					okGuard = false
+					return false
+				}
+			})
+		}
+		c.Check(seen && okGuard, rule, fmt.Sprintf("commands.DiffCommand.readIgnores › success return #%d before the file is decoded", n), c.posOf(cmds, rs.Pos()), "only when no ignore file is named",
+			"readIgnores answers an empty list without decoding the file under a condition that is not a test of the option's value: an ignore list that does not look like a regular non-empty file (a pipe, /dev/stdin, a FIFO) is dropped and nothing is ignored")
+	})
 }
